@@ -1,12 +1,16 @@
 """C01 - Signals are dispatched by priority, first-in first-out within a priority."""
 from harness.props.session import *
 from harness.gen.sessions import gen_case, SidCounter
+from harness.props import objects
 
 THEOREM_NOTE = ("Props/C01.lean: the queue is sorted by (priority, arrival number); put places a signal behind everything at least as urgent; every queue of every "
                 "reachable configuration is sorted; every take (main loop, waiting and non-waiting processing) removes the head of the active queue; no other "
-                "transition removes or reorders entries; a put-back leaves the queue unchanged")
+                "transition removes or reorders entries; a put-back leaves the queue unchanged"
+                " Props/C01b.lean: CPython's heapq (heappush / heappop with _siftdown / _siftup, modelled step for step on arrays, termination proved) keeps the heap property and the "
+                "multiset for any strict weak order, pops the minimum; EventQueue over it (put / get / get_top_event_if_priority with the put-back of the same entry) refines the sorted-list "
+                "queue of the machine for every operation sequence (C01b_sequence_refines); the pre-fix priority-only comparison is kernel-checked not FIFO (0,2,1,3)")
 ASSUMPTIONS = ASSUME_SESSION
-RULE = ("[thorough tier adds the small-scope exhaustive enumeration of harness/gen/exhaustive.py: every loop program with a <= 2-action and a <= 1-action handler over a 10-action alphabet, 3 663 programs] loop-mode programs with 4..40 pending signals of equal priority, mixed priorities (incl. -20 and below), enqueues from inside handlers, non-waiting and waiting "
+RULE = ("[object level: the real EventQueue under random put / get / partial-get sequences (priorities incl. huge ones, arrival counters started near powers of two up to 2^70, signal classes that compute their priority), outputs and the heap array compared with Model/Heapq.lean after every call] [thorough tier adds the small-scope exhaustive enumeration of harness/gen/exhaustive.py: every loop program with a <= 2-action and a <= 1-action handler over a 10-action alphabet, 3 663 programs] loop-mode programs with 4..40 pending signals of equal priority, mixed priorities (incl. -20 and below), enqueues from inside handlers, non-waiting and waiting "
         "processing calls from handlers with a more urgent signal arriving mid-batch, nested loops; plus generic random loop/app sessions; oracle: at every first handler "
         "invocation for a signal, no signal pending in the same level is more urgent or equally urgent and older; non-trivial = >= 4 user signals dispatched")
 
@@ -66,7 +70,12 @@ def generate(rnd, tier):
     if tier == "thorough":
         from harness.gen.exhaustive import loop_programs
         cases += list(loop_programs(sid))          # small-scope exhaustive: 3 663 programs
-    return [with_cc(c) for c in cases]
+    for c in cases:
+        # signal classes that compute their priority (they override the public `priority` property; the private field of the base class keeps its default)
+        if rnd.random() < 0.25: c["prio_property"] = True
+    # the real EventQueue on its own under arbitrary put / get / partial-get sequences, its heap array compared after every call with CPython's heapq as modelled
+    # in Model/Heapq.lean (Props/C01b.lean: that heap refines the sorted-list queue of the machine)
+    return [with_cc(c) for c in cases] + objects.gen_heapq(rnd, 1500 if tier == "quick" else 20000)
 
 
 def corpus():
@@ -118,3 +127,7 @@ def monitor(case, obs):
 
 def nontrivial(case, obs):
     return len({e[2] for e in obs["log"] if e[0] == "H"}) >= 4
+
+
+LEAN_MODULES = ["C01", "C01b"]
+objects.install(globals(), ("heapq",))
